@@ -11,7 +11,7 @@ func init() {
 	register(&PropDef{
 		ID:    "C54",
 		Pkgs:  []string{"health"},
-		Claim: "Decides the structural part: the health server's status map, watcher table and shutdown flag are accessed only under its mutex (the …Locked helper only from locked callers); a status change is pushed to each watcher's one-slot channel after draining the slot without blocking, so the push cannot block under the lock and only the newest value is kept; a watch stream sends a value only when it differs from the last value sent, remembering it before sending; the initial value (current status or SERVICE_UNKNOWN) is queued and the watcher registered within one critical section; once shut down, SetServingStatus changes nothing, while Shutdown/Resume set the flag and broadcast NOT_SERVING / SERVING for every known service.",
+		Claim: "Decides the structural part: the health server's status map, watcher table and shutdown flag are accessed only under its mutex (the …Locked helper only from locked callers); a status change is pushed to each watcher's one-slot channel after draining the slot without blocking, so the push cannot block under the lock and only the newest value is kept; a watch stream sends a value only when it differs from the last value sent, remembering it before sending; the initial value (current status or SERVICE_UNKNOWN) is queued and the watcher registered within one critical section; once shut down, SetServingStatus changes nothing, while Shutdown/Resume set the flag and broadcast NOT_SERVING / SERVING for every known service. A Watch stream ends after a send only if that send failed.",
 		NotDecided:  []string{"eventual convergence of every watcher to the latest status over all interleavings (liveness)"},
 		Assumptions: []string{"a buffered channel of capacity 1 holds at most one pending value"},
 		Technique:   "static analysis: must-lockset with call-site checking, ordering (dominance) of drain and send, dominating guards on go/ssa branch facts, constant-flow",
